@@ -464,6 +464,7 @@ pub fn plan_c11(thorough: bool) -> Plan {
             }
         }
     }
+    cases.extend(attempt_in_between_family());
     sort_by_bound(&mut cases);
     let mut p = Plan::new(
         cases,
@@ -471,6 +472,82 @@ pub fn plan_c11(thorough: bool) -> Plan {
     );
     p.budget_s = if thorough { 1700 } else { 45 };
     p
+}
+
+
+/// A committed parent overlay, then ONE attempt that must leave no trace (an overlay whose parent
+/// is not committed / a stale overlay / a stale prepared session / a deferred non-blocking
+/// attempt, each through the blocking and the non-blocking entry point), then the legitimate
+/// child of the committed parent: it must still be accepted, and the whole history must equal the
+/// one in which the attempt never happened (roots, values, seqn, rollback targets).
+pub fn attempt_in_between_family() -> Vec<Value> {
+    let mut cfg = rb_cfg(3, 0);
+    cfg.buckets = 64;
+    let mut cases = vec![];
+    let b_p = vec![w(0, 9), del(1)];
+    let b_c = vec![w(3, 1333)];
+    let b_g = vec![w(2, 7)];
+    let b_x = vec![w(1, 5)];
+    for (seed, uni) in [("leaf", vec!["seed:0,2,5", "CL0:0-1"]), ("cl12x19", vec!["CL12:17-23"])] {
+        for nb in [false, true] {
+            let ovc = |id: u64| if nb { json!({"ovcn": id}) } else { json!({"ovc": id}) };
+            // (a) grandchild first: refused (its parent is not committed), then child, then grandchild
+            cases.push(case(seed, uni.clone(), &cfg, "all", vec![
+                json!({"ov": {"id": 0, "on": [], "b": b_p}}),
+                json!({"ov": {"id": 1, "on": [0], "b": b_c}}),
+                json!({"ov": {"id": 2, "on": [1, 0], "b": b_g}}),
+                json!({"ovc": 0}),
+                ovc(2),
+                json!({"ovc": 1}),
+                json!({"ovc": 2}),
+                json!({"rb": 1}),
+                json!({"rb": 2}),
+            ], 5, true));
+            // (b) a stale unrelated overlay in between
+            cases.push(case(seed, uni.clone(), &cfg, "all", vec![
+                json!({"ov": {"id": 0, "on": [], "b": b_p}}),
+                json!({"ov": {"id": 1, "on": [0], "b": b_c}}),
+                json!({"ov": {"id": 2, "on": [], "b": b_x}}),
+                json!({"ovc": 0}),
+                ovc(2),
+                json!({"ovc": 1}),
+                json!({"rb": 2}),
+            ], 5, true));
+            // (c) a stale prepared session in between
+            cases.push(case(seed, uni.clone(), &cfg, "all", vec![
+                json!({"prep": {"id": 0, "b": b_x}}),
+                json!({"ov": {"id": 0, "on": [], "b": b_p}}),
+                json!({"ov": {"id": 1, "on": [0], "b": b_c}}),
+                json!({"ovc": 0}),
+                if nb { json!({"fcn": 0}) } else { json!({"fc": 0}) },
+                json!({"ovc": 1}),
+                json!({"rb": 1}),
+                json!({"rb": 1}),
+            ], 5, true));
+        }
+        // (d) the child itself deferred once (a session is alive on the calling thread), then committed
+        cases.push(case(seed, uni.clone(), &cfg, "all", vec![
+            json!({"ov": {"id": 0, "on": [], "b": b_p}}),
+            json!({"ov": {"id": 1, "on": [0], "b": b_c}}),
+            json!({"ovc": 0}),
+            json!({"hold": 0}),
+            json!({"ovcn": 1}),
+            json!({"release": 0}),
+            json!({"ovc": 1}),
+            json!({"rb": 2}),
+        ], 5, true));
+        // (e) the same attempts before the PARENT is committed
+        cases.push(case(seed, uni.clone(), &cfg, "all", vec![
+            json!({"ov": {"id": 0, "on": [], "b": b_p}}),
+            json!({"ov": {"id": 1, "on": [0], "b": b_c}}),
+            json!({"ovc": 1}),
+            json!({"ovcn": 1}),
+            json!({"ovc": 0}),
+            json!({"ovc": 1}),
+            json!({"rb": 1}),
+        ], 5, true));
+    }
+    cases
 }
 
 pub fn plan_c12(thorough: bool) -> Plan {
@@ -535,6 +612,7 @@ pub fn plan_c12(thorough: bool) -> Plan {
         // a direct non-blocking commit while a session is alive is simply handed back
         cases.push(case("empty", vec!["U4"], &cfg, "noproof", vec![c(vec![w(0, 1)]), json!({"hold": 0}), json!({"cn": [w(1, 1)]}), json!({"release": 0}), json!({"rb": 1})], 3, true));
     }
+    cases.extend(attempt_in_between_family());
     sort_by_bound(&mut cases);
     let mut p = Plan::new(
         cases,
